@@ -117,10 +117,16 @@ pub fn mutators(t: &mut Tape<'_>, cfg: &mut Cfg) {
             cfg.sels[i].ops.push(so);
         }
     }
-    if t.chance(1, 5) {
-        if cfg.docs.is_empty() {
-            cfg.docs.push(DocSpec::default());
+    if t.chance(1, 4) {
+        // 1-3 document-end handlers on separate registrations, each appending different content
+        // (they run one after the other in end(); a failure in one must stop the rest)
+        let k = t.range(1, 3);
+        for j in 0..k {
+            if cfg.docs.len() <= j {
+                cfg.docs.push(DocSpec::default());
+            }
+            let s = format!("{}{}", gstr(t), ["", "[E1]", "[E2]"][j]);
+            cfg.docs[j].ops.push(ScriptOp { kind: Kind::DocEnd, nth: None, every_chunk: false, op: Op::Append(s, ct(t)) });
         }
-        cfg.docs[0].ops.push(ScriptOp { kind: Kind::DocEnd, nth: None, every_chunk: false, op: Op::Append(gstr(t), ct(t)) });
     }
 }
